@@ -89,13 +89,15 @@ Definition action_ok (k : nat) (a : list N) : bool :=
 Section Reader.
   Variable B : nat.
 
-  (* readDoc's loop `for isPrefix { ReadLine }` : Ok rest | Fail (a reader error, io.EOF) *)
+  (* readDoc's loop `for isPrefix { ReadLine }` : Ok rest.  io.EOF ends the skipped line (it is
+     the last one, unterminated, and ended exactly at a buffer boundary); before the repair
+     7e46066 this was an error, see ModelV0.v *)
   Fixpoint skip_big (f : nat) (s : list N) : res (list N) :=
     match f with
     | 0 => OutOfFuel
     | S f' =>
         match read_line B s with
-        | REof => Fail
+        | REof => Ok []
         | RLine _ true r => skip_big f' r
         | RLine _ false r => Ok r
         end
@@ -215,9 +217,10 @@ Definition wrap64 (z : Z) : Z := (z + 2 ^ 63) mod 2 ^ 64 - 2 ^ 63.
 Definition sat64 (z : Z) : Z := if z <? min64 then min64 else if max64 <? z then max64 else z.
 Definition neg64 (z : Z) : Z := wrap64 (- z).
 
-(* documentDelayed on int64 durations *)
+(* documentDelayed on int64 durations (`docDelay < 0 && docDelay < -futureDrift`; before the
+   repair 50bd78c `-docDelay > futureDrift`, see ModelV0.v) *)
 Definition delayed (delay drift fdrift : Z) : bool :=
-  (drift <? delay) || ((delay <? 0) && (fdrift <? neg64 delay)).
+  (drift <? delay) || ((delay <? 0) && (delay <? neg64 fdrift)).
 
 (* Process: the instant that goes into seq.NewID *)
 Definition id_time (now drift fdrift : Z) (doc : option Z) : Z :=
@@ -270,6 +273,18 @@ Definition at_is (s : list N) (i : nat) (c : N) : bool := N.eqb (nth i s 0%N) c.
 (* uint(math.Pow10(9 - len)), 0 replaced by 1 *)
 Definition frac_multi (len : nat) : N := if Nat.leb len 9 then (10 ^ N.of_nat (9 - len))%N else 1%N.
 
+(* fraction after the '.': digits beyond the ninth are checked to be digits and dropped (repair
+   480fedc; before it the whole string was read with multiplier 1, see ModelV0.v) *)
+Definition parse_frac (fr : list N) : option N :=
+  match parse_uint_acc (skipn 9 fr) 0 with
+  | None => None
+  | Some _ =>
+      match parse_uint (firstn 9 fr) 0 999999999 with
+      | Some x => Some (x * frac_multi (length (firstn 9 fr)))%N
+      | None => None
+      end
+  end.
+
 Definition parse_es (t : list N) : option Z :=
   if Nat.ltb (length t) 19 then None else
   match parse_uint (sub t 0 4) 0 9999, parse_uint (sub t 5 7) 1 12, parse_uint (sub t 8 10) 1 31,
@@ -283,9 +298,9 @@ Definition parse_es (t : list N) : option Z :=
           if negb (N.eqb c 46) then None else
           match fr with
           | [] => None
-          | _ => match parse_uint fr 0 999999999 with
-                 | Some x => Some (date_nanos (Z.of_N y) (Z.of_N mo) (Z.of_N d) (Z.of_N h) (Z.of_N mi)
-                                               (Z.of_N s) (Z.of_N (x * frac_multi (length fr))))
+          | _ => match parse_frac fr with
+                 | Some ns => Some (date_nanos (Z.of_N y) (Z.of_N mo) (Z.of_N d) (Z.of_N h) (Z.of_N mi)
+                                                (Z.of_N s) (Z.of_N ns))
                  | None => None
                  end
           end
